@@ -1,1 +1,262 @@
-//! (reference for serpent: to be written)
+//! Serpent, written from R. Anderson, E. Biham, L. Knudsen, "Serpent: A Proposal for the Advanced Encryption
+//! Standard" (AES submission, 1998): section 2 (the cipher), section 3 ("An Efficient Implementation": the
+//! bitslice description, which the submission states to be equivalent to the standard description with IP/FP
+//! removed), section 4 (key schedule) and appendix A.5 (the S-boxes S0..S7 as 4-bit tables).
+//!
+//! Conventions: a 128-bit block / round key is four 32-bit words X0..X3; bit j of the 4-bit S-box input of
+//! "lane" j is made of bit j of X0 (least significant) .. bit j of X3 (most significant) (section 3).
+//! Byte order (the convention of the NESSIE vectors bundled with /repo): word i of the block is bytes
+//! 4i..4i+3 little-endian; the user key bytes are read the same way into w_-8..w_-1.
+//! Short keys (section 4): "append one '1' bit to the MSB end, followed by as many '0' bits as required to make
+//! up 256 bits" -- with little-endian words the next more significant bit after n key bytes is bit 0 of byte n.
+
+pub const ROUNDS: usize = 32;
+/// fractional part of the golden ratio (sqrt(5)+1)/2 (section 4)
+pub const PHI: u32 = 0x9e37_79b9;
+
+/// Appendix A.5: S0..S7.
+pub const S: [[u8; 16]; 8] = [
+    [3, 8, 15, 1, 10, 6, 5, 11, 14, 13, 4, 2, 7, 0, 9, 12],
+    [15, 12, 2, 7, 9, 0, 5, 10, 1, 11, 14, 8, 6, 13, 3, 4],
+    [8, 6, 7, 9, 3, 12, 10, 15, 13, 1, 14, 4, 0, 11, 5, 2],
+    [0, 15, 11, 8, 12, 9, 6, 3, 13, 1, 2, 4, 10, 7, 5, 14],
+    [1, 15, 8, 3, 12, 0, 11, 6, 2, 5, 4, 10, 9, 14, 7, 13],
+    [15, 5, 2, 11, 4, 10, 9, 12, 0, 3, 14, 8, 13, 6, 7, 1],
+    [7, 2, 12, 5, 8, 4, 6, 11, 14, 9, 1, 15, 13, 3, 10, 0],
+    [1, 13, 15, 0, 14, 8, 2, 11, 7, 4, 12, 10, 9, 3, 5, 6],
+];
+
+const fn invert(s: &[[u8; 16]; 8]) -> [[u8; 16]; 8] {
+    let mut out = [[0u8; 16]; 8];
+    let mut i = 0;
+    while i < 8 {
+        let mut x = 0;
+        while x < 16 {
+            out[i][s[i][x] as usize] = x as u8;
+            x += 1;
+        }
+        i += 1;
+    }
+    out
+}
+/// The inverse S-boxes (computed: SINV[i][S[i][x]] = x).
+pub const SINV: [[u8; 16]; 8] = invert(&S);
+
+/// A 4-bit table applied in bitslice mode: for each of the 32 bit positions j, the nibble
+/// (x3_j x2_j x1_j x0_j) is replaced by its table image (section 3).
+pub fn table_bitslice(t: &[u8; 16], x: [u32; 4]) -> [u32; 4] {
+    let mut y = [0u32; 4];
+    let mut j = 0;
+    while j < 32 {
+        let nib = ((x[0] >> j) & 1) | (((x[1] >> j) & 1) << 1) | (((x[2] >> j) & 1) << 2) | (((x[3] >> j) & 1) << 3);
+        let o = t[nib as usize] as u32;
+        y[0] |= (o & 1) << j;
+        y[1] |= ((o >> 1) & 1) << j;
+        y[2] |= ((o >> 2) & 1) << j;
+        y[3] |= ((o >> 3) & 1) << j;
+        j += 1;
+    }
+    y
+}
+
+/// S_{i mod 8} in bitslice mode.
+pub fn sbox(i: usize, x: [u32; 4]) -> [u32; 4] { table_bitslice(&S[i % 8], x) }
+/// S_{i mod 8}^-1 in bitslice mode.
+pub fn sbox_inv(i: usize, x: [u32; 4]) -> [u32; 4] { table_bitslice(&SINV[i % 8], x) }
+
+/// The linear transformation in bitslice mode, section 3.
+pub fn lt(x: [u32; 4]) -> [u32; 4] {
+    let [mut x0, mut x1, mut x2, mut x3] = x;
+    x0 = x0.rotate_left(13);
+    x2 = x2.rotate_left(3);
+    x1 = x1 ^ x0 ^ x2;
+    x3 = x3 ^ x2 ^ (x0 << 3);
+    x1 = x1.rotate_left(1);
+    x3 = x3.rotate_left(7);
+    x0 = x0 ^ x1 ^ x3;
+    x2 = x2 ^ x3 ^ (x1 << 7);
+    x0 = x0.rotate_left(5);
+    x2 = x2.rotate_left(22);
+    [x0, x1, x2, x3]
+}
+
+/// The inverse linear transformation (the steps of `lt` undone in reverse order).
+pub fn lt_inv(x: [u32; 4]) -> [u32; 4] {
+    let [mut x0, mut x1, mut x2, mut x3] = x;
+    x2 = x2.rotate_right(22);
+    x0 = x0.rotate_right(5);
+    x2 = x2 ^ x3 ^ (x1 << 7);
+    x0 = x0 ^ x1 ^ x3;
+    x3 = x3.rotate_right(7);
+    x1 = x1.rotate_right(1);
+    x3 = x3 ^ x2 ^ (x0 << 3);
+    x1 = x1 ^ x0 ^ x2;
+    x2 = x2.rotate_right(3);
+    x0 = x0.rotate_right(13);
+    [x0, x1, x2, x3]
+}
+
+pub fn xor4(a: [u32; 4], b: [u32; 4]) -> [u32; 4] { [a[0] ^ b[0], a[1] ^ b[1], a[2] ^ b[2], a[3] ^ b[3]] }
+
+/// Section 4: a user key of `n` bytes (16 <= n <= 32; the first `n` bytes of `key`) padded to 256 bits.
+pub fn pad_key(key: &[u8; 32], n: usize) -> [u8; 32] {
+    let mut out = [0u8; 32];
+    let mut i = 0;
+    while i < 32 {
+        if i < n {
+            out[i] = key[i];
+        } else if i == n {
+            out[i] = 0x01;
+        }
+        i += 1;
+    }
+    out
+}
+
+/// Section 4: prekeys w_0..w_131 from the 256-bit key, then round keys K_0..K_32 through the S-boxes
+/// (S3 for K_0, S2 for K_1, S1, S0, S7, ... : S_{(3 - i) mod 8} for K_i).
+pub fn key_schedule(key: &[u8; 32]) -> [[u32; 4]; 33] {
+    // w[i + 8] holds w_i
+    let mut w = [0u32; 140];
+    let mut i = 0;
+    while i < 8 {
+        w[i] = u32::from_le_bytes([key[4 * i], key[4 * i + 1], key[4 * i + 2], key[4 * i + 3]]);
+        i += 1;
+    }
+    let mut i = 0;
+    while i < 132 {
+        w[i + 8] = (w[i] ^ w[i + 3] ^ w[i + 5] ^ w[i + 7] ^ PHI ^ (i as u32)).rotate_left(11);
+        i += 1;
+    }
+    let mut k = [[0u32; 4]; 33];
+    let mut i = 0;
+    while i < 33 {
+        let which = (8 + 3 - (i % 8)) % 8;
+        k[i] = sbox(which, [w[8 + 4 * i], w[8 + 4 * i + 1], w[8 + 4 * i + 2], w[8 + 4 * i + 3]]);
+        i += 1;
+    }
+    k
+}
+
+/// Section 3: B_{i+1} = L(S_i(B_i ^ K_i)) for i = 0..30, B_32 = S_31(B_31 ^ K_31) ^ K_32.
+pub fn encrypt_words(k: &[[u32; 4]; 33], block: [u32; 4]) -> [u32; 4] {
+    let mut b = block;
+    let mut i = 0;
+    while i < 31 {
+        b = lt(sbox(i, xor4(b, k[i])));
+        i += 1;
+    }
+    xor4(sbox(31, xor4(b, k[31])), k[32])
+}
+
+/// Inverse S-boxes, inverse linear transformation, reverse order of the subkeys (section 2).
+pub fn decrypt_words(k: &[[u32; 4]; 33], block: [u32; 4]) -> [u32; 4] {
+    let mut b = xor4(sbox_inv(31, xor4(block, k[32])), k[31]);
+    let mut i = 31;
+    while i > 0 {
+        i -= 1;
+        b = xor4(sbox_inv(i, lt_inv(b)), k[i]);
+    }
+    b
+}
+
+pub fn words_of(b: &[u8; 16]) -> [u32; 4] {
+    let mut w = [0u32; 4];
+    let mut i = 0;
+    while i < 4 {
+        w[i] = u32::from_le_bytes([b[4 * i], b[4 * i + 1], b[4 * i + 2], b[4 * i + 3]]);
+        i += 1;
+    }
+    w
+}
+pub fn bytes_of(w: &[u32; 4]) -> [u8; 16] {
+    let mut b = [0u8; 16];
+    let mut i = 0;
+    while i < 4 {
+        let x = w[i].to_le_bytes();
+        b[4 * i] = x[0];
+        b[4 * i + 1] = x[1];
+        b[4 * i + 2] = x[2];
+        b[4 * i + 3] = x[3];
+        i += 1;
+    }
+    b
+}
+
+pub fn encrypt_with(k: &[[u32; 4]; 33], block: &[u8; 16]) -> [u8; 16] { bytes_of(&encrypt_words(k, words_of(block))) }
+pub fn decrypt_with(k: &[[u32; 4]; 33], block: &[u8; 16]) -> [u8; 16] { bytes_of(&decrypt_words(k, words_of(block))) }
+
+/// Serpent encryption under the user key `key[..n]`, 16 <= n <= 32.
+pub fn encrypt(key: &[u8; 32], n: usize, block: &[u8; 16]) -> [u8; 16] { encrypt_with(&key_schedule(&pad_key(key, n)), block) }
+pub fn decrypt(key: &[u8; 32], n: usize, block: &[u8; 16]) -> [u8; 16] { decrypt_with(&key_schedule(&pad_key(key, n)), block) }
+
+#[cfg(test)]
+mod tests {
+    use super::*;
+
+    fn hex<const N: usize>(s: &str) -> [u8; N] {
+        let b = s.as_bytes();
+        assert_eq!(b.len(), 2 * N);
+        let mut out = [0u8; N];
+        for i in 0..N {
+            let d = |c: u8| (c as char).to_digit(16).unwrap() as u8;
+            out[i] = d(b[2 * i]) << 4 | d(b[2 * i + 1]);
+        }
+        out
+    }
+    fn kat(key: &str, pt: &str, ct: &str) {
+        let n = key.len() / 2;
+        let mut k = [0xA5u8; 32]; // bytes beyond n must be ignored
+        for i in 0..n {
+            k[i] = hex::<1>(&key[2 * i..2 * i + 2])[0];
+        }
+        let p: [u8; 16] = hex(pt);
+        let c: [u8; 16] = hex(ct);
+        assert_eq!(encrypt(&k, n, &p), c);
+        assert_eq!(decrypt(&k, n, &c), p);
+    }
+
+    // NESSIE "Serpent-{128,192,256}-128.verified.test-vectors" (the byte convention of /repo's bundled vectors)
+    #[test]
+    fn nessie_128() {
+        kat("80000000000000000000000000000000", "00000000000000000000000000000000", "264e5481eff42a4606abda06c0bfda3d");
+        kat("40000000000000000000000000000000", "00000000000000000000000000000000", "4a231b3bc727993407ac6ec8350e8524");
+        kat("04000000000000000000000000000000", "00000000000000000000000000000000", "5e86bb8f6b1175510c6b244281a0b04a");
+        // set 8 vector 1
+        kat("2bd6459f82c5b300952c49104881ff48", "ea024714ad5c4d84ea024714ad5c4d84", "92d7f8ef2c36c53409f275902f06539f");
+    }
+    #[test]
+    fn nessie_192() {
+        kat("800000000000000000000000000000000000000000000000", "00000000000000000000000000000000", "9e274ead9b737bb21efcfca548602689");
+        kat("2bd6459f82c5b300952c49104881ff482bd6459f82c5b300", "ea024714ad5c4d84ea024714ad5c4d84", "827b18c2678a239dfc5512842000e204");
+    }
+    #[test]
+    fn nessie_256() {
+        kat("8000000000000000000000000000000000000000000000000000000000000000", "00000000000000000000000000000000", "a223aa1288463c0e2be38ebd825616c0");
+        kat("2bd6459f82c5b300952c49104881ff482bd6459f82c5b300952c49104881ff48", "ea024714ad5c4d84ea024714ad5c4d84", "3e507730776b93fdea661235e1dd99f0");
+    }
+    #[test]
+    fn sboxes_are_permutations_and_inverse() {
+        for i in 0..8 {
+            let mut seen = 0u16;
+            for x in 0..16 {
+                seen |= 1 << S[i][x];
+                assert_eq!(SINV[i][S[i][x] as usize] as usize, x);
+            }
+            assert_eq!(seen, 0xffff);
+        }
+    }
+    #[test]
+    fn short_key_is_padded_key() {
+        // a 16-byte key is the 32-byte key "key || 01 || 00.."
+        let mut k = [0u8; 32];
+        for i in 0..16 { k[i] = i as u8 * 7 + 1; }
+        let mut full = k;
+        full[16] = 1;
+        let p = [0x33u8; 16];
+        assert_eq!(encrypt(&k, 16, &p), encrypt(&full, 32, &p));
+        let a = [1, 2, 3, 0xffff_0000u32];
+        assert_eq!(lt_inv(lt(a)), a);
+        assert_eq!(sbox_inv(5, sbox(5, a)), a);
+    }
+}
